@@ -79,7 +79,7 @@ var props = []*prop{
 		Rule:     "one case = one simulated run: real TarsServer (TCP or UDP) with the generated dispatcher, pool 0/1/2/4, queue capacity 2/8/1000, handle time-out 0/100ms/700ms; 1-4 raw clients pipelining 1-10 requests each: TARS/TUP/JSON version, two-way/one-way, addInts/echoString/fail(code,msg)/slow(ms)/tars_ping/unknown function, arbitrary (also negative) ids, time-outs 0/5-45ms/3s/60s, optionally behind a pool saturated for 600ms; UDP with datagram loss and duplication; distinct = distinct (event-log hash, switch trace hash); non-trivial = at least one preemption or fired fault",
 	},
 	{
-		ID: "C11", Binary: "simcore", Quick: 10000, Thorough: 200000, RunWall: 180 * time.Second,
+		ID: "C11", Binary: "simcore", Quick: 20000, Thorough: 200000, RunWall: 180 * time.Second,
 		Variants: []variant{{Scenario: "c11", Weight: 3}, {Scenario: "c11r", Weight: 1}},
 		Real:     fullStackReal,
 		Stub:     append([]string{netStub, "server -> scripted peer (reference codec) that answers every request it reads and closes connections by plan"}, commonStub...),
@@ -107,7 +107,7 @@ var props = []*prop{
 		Rule:     "one case = one simulated run: two selector instances, one driven by a tape-drawn history of 1-25 add/remove/refresh events, the other reaching the same set by another route; ~190 lookups (ring points and their +-1 neighbours, 0, MaxUint32, random codes) compared between the instances and with an independently built ring; then removal and addition of one endpoint (minimal disruption); every 13th run is the cluster variant: 100-300 simulated seconds of calls carrying mod-hash / consistent-hash codes through a registry-discovered proxy while 2-5 scripted servers fail and recover, each call compared with the reference applied to the rotation at selection time; distinct = distinct (event-log hash, switch trace hash); non-trivial = at least one preemption or fault phase (the single-goroutine selector-level runs count as trivial)",
 	},
 	{
-		ID: "C15", Binary: "simcore", Quick: 600, Thorough: 20000, RunWall: 300 * time.Second,
+		ID: "C15", Binary: "simcore", Quick: 1500, Thorough: 20000, RunWall: 300 * time.Second,
 		Variants: []variant{{Scenario: "c15", Weight: 1}},
 		Real:     append([]string{"tars endpointManager, globalManager status check / refresh loops, AdapterProxy health accounting (instrumented)"}, fullStackReal...),
 		Stub:     append([]string{netStub, "registry -> scripted registry.Registrar through the existing tars.Registrar option", "servers -> 2-5 scripted peers with per-server timelines of healthy / silent / refusing phases"}, commonStub...),
